@@ -66,6 +66,10 @@ pub enum CStep {
     ArmStoreError,
     /// wait until the harness signals that shutdown has been fired (C16)
     WaitShutdown,
+    /// keep sending a few bytes of an unfinished request every `gap_us` microseconds for
+    /// `total_us` microseconds of simulated time, or until the connection is dead: a client that
+    /// never goes quiet (a retry loop, a slow upload)
+    Dribble { total_us: u64, gap_us: u64 },
 }
 
 #[derive(Clone, Debug, Serialize, Deserialize, PartialEq)]
